@@ -76,3 +76,8 @@ pub use user_model::BorderArea;
 pub use user_model::ClipboardData;
 pub use user_model::UserModel;
 pub use utils::get_all_timezones;
+
+// Verification hook (off unless built with `--cfg ironcalc_verif`): lets an external
+// conformance harness enumerate the built-in functions.
+#[cfg(ironcalc_verif)]
+pub use crate::functions::Function;
